@@ -175,6 +175,8 @@ class Tr:
             a, b, k = self.spec["slices"][f[:-len(".indices")]]
             ln, tl = self.expr(n.args[0], env)
             return (f"(sliceIndices {ln} {env[a][0]} {env[b][0]} {env[k][0]})", "Int × Int × Int")
+        if f in self.spec.get("identity_calls", []) and len(n.args) == 1:
+            return self.expr(n.args[0], env)      # a dtype constructor applied to an integer: the integer
         if f in self.ctor:
             parts = [self.expr(a, env) for a in n.args]
             return ("(" + ", ".join(p[0] for p in parts) + ")", " × ".join(p[1] for p in parts))
